@@ -132,9 +132,9 @@ def _gen_case(rng, i, multi_every=6, share_every=4, shipped_every=3, n_samples=1
         ops = sorted({o for sg in info["subgraphs"] for o in sg["ops"] if o in gm.Grower.SUPPORTED})
         if ops:
             late = [{"k": "quantize"}, {"k": "add", "regex": ".*", "operation": rng.choice(ops), "cfg": None, "alg": "no_quantize"}]
-    elif r < 0.11:
+    elif r < 0.17:
         late = [{"k": "policy", "file": "example_config_policy.json"}]   # a shipped custom policy replaces the default one
-        if rng.random() < 0.6:
+        if rng.random() < 0.75:
             late = [{"k": "quantize"}] + late    # ... after the object has already resolved its rules once under the default policy
             if rng.random() < 0.7:
                 # a '*' rule whose support is decided at resolution time and differs between the two policies (the example policy knows
@@ -142,7 +142,7 @@ def _gen_case(rng, i, multi_every=6, share_every=4, shipped_every=3, n_samples=1
                 cfg = rng.choice([pl.UNIFORM["wo8"], pl.UNIFORM["wo4"], pl.UNIFORM["wo8a"], pl.UNIFORM["drq4"], pl.UNIFORM["drq4c"]])
                 cmds = [{"k": "add", "regex": ".*", "operation": "*", "cfg": cfg, "alg": "min_max_uniform_quantize"}]
                 late[-1] = {"k": "policy", "file": "<strict>"}   # the default policy without its weight-only and 4-bit dynamic-range entries
-    elif r < 0.19:
+    elif r < 0.25:
         # calibrate once, then explore recipes with the same calibration result: the weight granularity (and width) configured when
         # quantize() runs differs from the one in force while calibrating
         grans = {c["cfg"]["weight"]["gran"] for c in cmds if c.get("cfg") and c["cfg"].get("weight") and c["cfg"].get("act") and c["alg"] == "min_max_uniform_quantize"}
